@@ -28,8 +28,9 @@ def gen_setup(rng, version):
     with desired values and queued traffic waiting for the next wake-up"""
     acts = []
     world = {}
+    sleepy = []
     if rng.random() < 0.3:
-        return acts, world
+        return acts, world, sleepy
     two = version >= "2.0"
     for n in rng.sample(NODES, rng.choice([1, 1, 2, 3])):
         acts.append(["line", f"{n};255;0;0;17;{rng.choice(['2.2', '2.1.1', '1.5', '2.3.2'])}"])
@@ -44,6 +45,7 @@ def gen_setup(rng, version):
             # wake-up makes it a smart sleep node; then the controller wants new values
             wake = f"{n};255;3;0;32;500" if version >= "2.2" else f"{n};255;3;0;22;1000"
             acts.append(["line", wake])
+            sleepy.append(n)
             for c, (st, vt, vals) in world[n].items():
                 if rng.random() < 0.7:
                     acts.append(["set", n, c, vt, rng.choice(vals)])
@@ -56,10 +58,10 @@ def gen_setup(rng, version):
             acts.append(["reboot", n])
     if rng.random() < 0.2:
         acts.append(["metric", 0])
-    return acts, world
+    return acts, world, sleepy
 
 
-def gen_frames(rng, version, world, n_frames):
+def gen_frames(rng, version, world, n_frames, sleepy=()):
     """mostly valid frames (str) against a rough picture of what the gateway knows"""
     two = version >= "2.0"
     frames = []
@@ -68,6 +70,11 @@ def gen_frames(rng, version, world, n_frames):
         k = rng.random()
         n = rng.choice(list(known) + NODES) if known else rng.choice(NODES)
         cs = known.get(n, {})
+        if sleepy and rng.random() < 0.12:
+            # a smart sleep node wakes up: burst of queued replies and desired values
+            n = rng.choice(list(sleepy))
+            frames.append(f"{n};255;3;0;32;500" if version >= "2.2" else f"{n};255;3;0;22;1000")
+            continue
         if k < 0.08:
             frames.append(f"{n};255;0;0;{rng.choice([17, 18])};{rng.choice(['2.2', '2.0', '1.4'])}")
             known.setdefault(n, {})
@@ -125,11 +132,11 @@ def gen_frames(rng, version, world, n_frames):
     return frames
 
 
-def gen_stream(rng, version, world, n_frames):
+def gen_stream(rng, version, world, n_frames, sleepy=()):
     """bytes of the stream + feature tags"""
     out = bytearray()
     feats = set()
-    for f in gen_frames(rng, version, world, n_frames):
+    for f in gen_frames(rng, version, world, n_frames, sleepy):
         if f is None:
             g = rng.random()
             if g < 0.3:
